@@ -271,6 +271,7 @@ fn dc<C: Col<K, N>, K: Comp, const N: usize>(s: &[C]) -> Vec<i64> {
 fn da<K: Comp, const N: usize>(s: &[[K; N]]) -> Vec<i64> { s.iter().flat_map(|a| a.iter().map(|k| k.dec())).collect() }
 fn dk<K: Comp>(s: &[K]) -> Vec<i64> { s.iter().map(|k| k.dec()).collect() }
 
+#[inline(never)]
 fn observe<C: Col<K, N>, K: Comp, const N: usize>(b: &Buf<C, K, N>) -> Obs {
     use Buf::*;
     let (sc, ac) = (size_of::<C>(), align_of::<C>());
@@ -305,6 +306,7 @@ fn observe<C: Col<K, N>, K: Comp, const N: usize>(b: &Buf<C, K, N>) -> Obs {
 }
 
 /// log the outcome of a call and continue the chain on the returned buffer
+#[inline(never)]
 fn step<C: Col<K, N>, K: Comp, const N: usize>(r: Result<(Buf<C, K, N>, i64), String>, op: &Op, rest: &[Op], cx: &mut Cx) {
     match r {
         Ok((b, err)) => {
@@ -327,6 +329,7 @@ fn map_fn<A: Col<K, N>, K: Comp, const N: usize>(a: A) -> A::Partner {
     <A::Partner as Col<K, N>>::make(a.read().map(|k| K::enc(k.dec() + MAP_DELTA)))
 }
 
+#[inline(never)]
 fn exec<C: Col<K, N>, K: Comp, const N: usize>(buf: Buf<C, K, N>, ops: &[Op], cx: &mut Cx) {
     use Buf::*;
     let Some((op, rest)) = ops.split_first() else { return };
@@ -505,6 +508,7 @@ fn exec<C: Col<K, N>, K: Comp, const N: usize>(buf: Buf<C, K, N>, ops: &[Op], cx
 }
 
 /// try_from_component_*: Ok -> colours; Err -> the buffer that came back, with the error kind
+#[inline(never)]
 fn exec_try<C: Col<K, N>, K: Comp, const N: usize>(buf: Buf<C, K, N>, op: &Op, rest: &[Op], cx: &mut Cx) {
     use Buf::*;
     let (a, m) = (op.api, op.m);
@@ -592,6 +596,7 @@ fn exec_try<C: Col<K, N>, K: Comp, const N: usize>(buf: Buf<C, K, N>, op: &Op, r
 }
 
 /// from_component_* (panicking): Ok -> colours; a panic consumes a buffer passed by value and leaves a borrowed one alone
+#[inline(never)]
 fn exec_from<C: Col<K, N>, K: Comp, const N: usize>(buf: Buf<C, K, N>, op: &Op, rest: &[Op], cx: &mut Cx) {
     use Buf::*;
     let (a, m) = (op.api, op.m);
@@ -710,6 +715,15 @@ fn vec_cap<T>(cap: usize, items: impl Iterator<Item = T>) -> Option<Vec<T>> {
     if v.capacity() == cap { Some(v) } else { None }
 }
 
+#[inline(never)]
+fn start_arr<C: Col<K, N>, K: Comp, const N: usize>(b: Buf<C, K, N>, ops: &[Op], cx: &mut Cx) -> bool {
+    let o = observe(&b);
+    cx.base = o.ptr;
+    reset_event::<C, K, N>(&o, cx);
+    run_chain(cx, |cx| exec(b, ops, cx));
+    true
+}
+
 /// build the initial buffer of a scenario on the real type, record it, run the chain; false = skipped
 fn run_arr<C: Col<K, N>, K: Comp, const N: usize>(ini: &Init, ops: &[Op], rec: &mut Rec) -> bool {
     use Buf::*;
@@ -719,14 +733,9 @@ fn run_arr<C: Col<K, N>, K: Comp, const N: usize>(ini: &Init, ops: &[Op], rec: &
     let (len, cap) = (ini.len, ini.cap);
     let mut cx = Cx { rec, base: 0, cur: None };
     macro_rules! start {
-        ($b:expr) => {{
-            let b: Buf<C, K, N> = $b;
-            let o = observe(&b);
-            cx.base = o.ptr;
-            reset_event::<C, K, N>(&o, &mut cx);
-            run_chain(&mut cx, |cx| exec(b, ops, cx));
-            true
-        }};
+        ($b:expr) => {
+            start_arr::<C, K, N>($b, ops, &mut cx)
+        };
     }
     match (ini.form.as_str(), ini.unit.as_str()) {
         ("value", "colour") => start!(ValC(mk_c(0))),
@@ -791,6 +800,7 @@ enum UBuf<'a, C, U> {
     VecU(Vec<U>),
 }
 
+#[inline(never)]
 fn uobserve<C: UCol<U>, U: Comp>(b: &UBuf<C, U>) -> Obs {
     use UBuf::*;
     let (sc, ac) = (size_of::<C>(), align_of::<C>());
@@ -819,6 +829,7 @@ fn uobserve<C: UCol<U>, U: Comp>(b: &UBuf<C, U>) -> Obs {
     }
 }
 
+#[inline(never)]
 fn ustep<C: UCol<U>, U: Comp>(r: Result<UBuf<C, U>, String>, op: &Op, rest: &[Op], cx: &mut Cx) {
     match r {
         Ok(b) => {
@@ -830,6 +841,7 @@ fn ustep<C: UCol<U>, U: Comp>(r: Result<UBuf<C, U>, String>, op: &Op, rest: &[Op
     }
 }
 
+#[inline(never)]
 fn uexec<C: UCol<U>, U: Comp>(buf: UBuf<C, U>, ops: &[Op], cx: &mut Cx) {
     use UBuf::*;
     let Some((op, rest)) = ops.split_first() else { return };
@@ -936,6 +948,27 @@ fn uexec<C: UCol<U>, U: Comp>(buf: UBuf<C, U>, ops: &[Op], cx: &mut Cx) {
     }
 }
 
+#[inline(never)]
+fn start_uint<C: UCol<U>, U: Comp>(b: UBuf<C, U>, ops: &[Op], cx: &mut Cx) -> bool {
+    let o = uobserve(&b);
+    cx.base = o.ptr;
+    let mut v = obs_json(&o, cx.base);
+    let mm = v.as_object_mut().unwrap();
+    mm.insert("ev".into(), json!("reset"));
+    mm.insert("ty".into(), json!(C::TY));
+    mm.insert("base".into(), json!(C::BASE));
+    mm.insert("wrap".into(), json!("none"));
+    mm.insert("comp".into(), json!(U::NAME));
+    mm.insert("fam".into(), json!("uint"));
+    mm.insert("n".into(), json!(1));
+    mm.insert("names".into(), json!(C::names()));
+    mm.insert("csize".into(), json!(size_of::<U>()));
+    mm.insert("calign".into(), json!(align_of::<U>()));
+    cx.rec.ev(v);
+    run_chain(cx, |cx| uexec(b, ops, cx));
+    true
+}
+
 fn run_uint<C: UCol<U>, U: Comp>(ini: &Init, ops: &[Op], rec: &mut Rec) -> bool {
     use UBuf::*;
     let tok = |i: usize| U::enc(i as i64 + 1);
@@ -943,26 +976,9 @@ fn run_uint<C: UCol<U>, U: Comp>(ini: &Init, ops: &[Op], rec: &mut Rec) -> bool 
     let (len, cap) = (ini.len, ini.cap);
     let mut cx = Cx { rec, base: 0, cur: None };
     macro_rules! start {
-        ($b:expr) => {{
-            let b: UBuf<C, U> = $b;
-            let o = uobserve(&b);
-            cx.base = o.ptr;
-            let mut v = obs_json(&o, cx.base);
-            let mm = v.as_object_mut().unwrap();
-            mm.insert("ev".into(), json!("reset"));
-            mm.insert("ty".into(), json!(C::TY));
-            mm.insert("base".into(), json!(C::BASE));
-            mm.insert("wrap".into(), json!("none"));
-            mm.insert("comp".into(), json!(U::NAME));
-            mm.insert("fam".into(), json!("uint"));
-            mm.insert("n".into(), json!(1));
-            mm.insert("names".into(), json!(C::names()));
-            mm.insert("csize".into(), json!(size_of::<U>()));
-            mm.insert("calign".into(), json!(align_of::<U>()));
-            cx.rec.ev(v);
-            run_chain(&mut cx, |cx| uexec(b, ops, cx));
-            true
-        }};
+        ($b:expr) => {
+            start_uint::<C, U>($b, ops, &mut cx)
+        };
     }
     match (ini.form.as_str(), ini.unit.as_str()) {
         ("value", "colour") => start!(ValC(mk_c(0))),
